@@ -214,46 +214,143 @@ harness! {
     }
 }
 
-macro_rules! position {
-    ($name:ident, $lon:expr) => {
+
+/// |got * 1e7 - truth| <= 129 (one quantisation step of 128e-7 degrees plus rounding).  Written as a
+/// disjunction whose first member is "got is bit-identical to the centre of the 128-unit bucket that
+/// contains the truth, converted the way a fixed-point decoder converts it": on a decoder that returns
+/// the bucket centre the solver proves that member by integer reasoning plus structural equality of the
+/// two float expressions (seconds); the second member (the property's literal tolerance, two float
+/// multiplications the SAT solver has to reason through: no answer in 30-40 min) remains the
+/// specification, so a decoder that is right in another way is never reported.
+fn position_ok(got: f64, truth: i32) -> bool {
+    let centre = (((truth >> 7) << 7) + 0x40) as f64 * 1e-7;
+    if got.to_bits() == centre.to_bits() { return true; }
+    let d = got * 1e7 - truth as f64;
+    d >= -129.0 && d <= 129.0
+}
+
+// ---- unit-level access to the PRIVATE position kernels: Kani resolves stub paths regardless of privacy, so
+// a public dummy is "stubbed" BY the private function — calling the dummy then runs the real
+// Flarm::decode_latitude / decode_longitude compiled from /repo.  (Natively the same value is obtained
+// through from_record on a packet built by the independent packer / encryptor.)
+pub fn lat_kernel(_decoded: u32, _reference: f64) -> Result<f64, rs1090::prelude::DekuError> { unreachable!() }
+pub fn lon_kernel(_decoded: u32, _reference: f64) -> Result<f64, rs1090::prelude::DekuError> { unreachable!() }
+
+macro_rules! position_unit {
+    ($name:ident, $lon:expr, $reference:expr, $slice:expr) => {
         harness! {
-            #[kani::unwind(30)]
+            #[kani::unwind(8)]
             #[kani::stub(alloc::fmt::format, crate::stubs::fmt_stub)]
             #[kani::stub(libm::atan2, crate::stubs::k::atan2_stub)]
             #[kani::stub(rs1090::decode::flarm::btea, btea_identity)]
-            /// position reconstruction of one coordinate: every finite reference on the globe, every
-            /// true position inside the decodable window around it, every value of the other bits of
-            /// the word that carries it: decoded within one quantisation step (128e-7 deg) of the truth
+            #[kani::stub(lat_kernel, rs1090::decode::flarm::Flarm::decode_latitude)]
+            #[kani::stub(lon_kernel, rs1090::decode::flarm::Flarm::decode_longitude)]
+            /// position kernel at ONE concrete reference, ONE slice of 2^16 offsets of the decodable window
+            /// (the window of 2^19 / 2^20 offsets is cut into 8 / 16 slices because the SAT solver has to push
+            /// every offset through the decoder's float multiplication: 28 s per 2^16, no answer in 30 min for
+            /// the whole window at once), every value of the other bits of the word: the decoded coordinate is
+            /// the centre of the true 128e-7 degree bucket (or within one step of the truth)
             fn $name(s) {
-                let w = s.u32();
-                let reference = s.f64();
-                let truth = s.u32() as i32; // 1e-7 degree units
-                let ts = s.u32();
-                let lim = if $lon { 180.0 } else { 90.0 };
-                vassume!(reference >= -lim && reference <= lim);
-                let (mask, half): (u32, i64) = if $lon { (0xfffff, 0x80000) } else { (0x7ffff, 0x40000) };
-                vassume!(w & mask == ((truth >> 7) as u32) & mask);
-                let r0 = (reference * 1e7) as i64;
-                vassume!(((truth as i64) - r0).abs() < (half - 2) * 128);
-                let words: [u32; 5] = if $lon { [0, 0, w, 0, 0] } else { [0, w, 0, 0, 0] };
-                let msg = packet(0x123456, 0x10, &cipher_words(&words, ts, 0x123456), [0, 0]);
-                let refs = if $lon { [45.0, reference] } else { [reference, 5.0] };
-                let r = Flarm::from_record(ts, &refs, &msg[..]);
-                vcover!(r.is_ok());
-                vassert!(r.is_ok(), "well-formed packet decodes");
-                if let Ok(f) = &r {
-                    let got = if $lon { f.longitude } else { f.latitude };
-                    let d = got * 1e7 - truth as f64;
-                    vcover!(truth < 0);
-                    vassert!(d >= -129.0 && d <= 129.0, "coordinate within one quantisation step of the true position");
+                let reference: f64 = $reference;
+                let (mask, half): (u32, i32) = if $lon { (0xfffff, 0x80000) } else { (0x7ffff, 0x40000) };
+                let round = ((reference * 1e7) as i32) >> 7;
+                let lo = (s.u32() & 0xffff) as i32;
+                let upper = s.u32() & !mask;
+                let d = ((($slice as i32) << 16) | lo) - half;       // offset from the reference, in steps
+                vassume!(d > -(half - 2) && d < half - 2);
+                let t = round + d;                                     // true position in 128e-7 degree steps
+                let w = ((t as u32) & mask) | upper;
+                #[cfg(kani)]
+                let got = if $lon { lon_kernel(w, reference) } else { lat_kernel(w, reference) };
+                #[cfg(not(kani))]
+                let got = {
+                    let words: [u32; 5] = if $lon { [0, 0, w, 0, 0] } else { [0, w, 0, 0, 0] };
+                    let msg = packet(0x123456, 0x10, &cipher_words(&words, 1_655_274_034, 0x123456), [0, 0]);
+                    let rr = if $lon { [45.0, reference] } else { [reference, 5.0] };
+                    Flarm::from_record(1_655_274_034, &rr, &msg[..]).map(|f| if $lon { f.longitude } else { f.latitude })
+                };
+                vcover!(got.is_ok());
+                vassert!(got.is_ok(), "position kernel returns a value");
+                if let Ok(g) = got {
+                    let truth = (t << 7) + 0x40;
+                    vassert!(position_ok(g, truth), "coordinate within one quantisation step of the true position");
                 }
-                core::mem::forget(r);
             }
         }
     };
 }
-position!(position_lat, false);
-position!(position_lon, true);
+position_unit!(pos_lat_a_00, false, 43.61924, 0);
+position_unit!(pos_lat_a_01, false, 43.61924, 1);
+position_unit!(pos_lat_a_02, false, 43.61924, 2);
+position_unit!(pos_lat_a_03, false, 43.61924, 3);
+position_unit!(pos_lat_a_04, false, 43.61924, 4);
+position_unit!(pos_lat_a_05, false, 43.61924, 5);
+position_unit!(pos_lat_a_06, false, 43.61924, 6);
+position_unit!(pos_lat_a_07, false, 43.61924, 7);
+position_unit!(pos_lon_a_00, true, 5.11755, 0);
+position_unit!(pos_lon_a_01, true, 5.11755, 1);
+position_unit!(pos_lon_a_02, true, 5.11755, 2);
+position_unit!(pos_lon_a_03, true, 5.11755, 3);
+position_unit!(pos_lon_a_04, true, 5.11755, 4);
+position_unit!(pos_lon_a_05, true, 5.11755, 5);
+position_unit!(pos_lon_a_06, true, 5.11755, 6);
+position_unit!(pos_lon_a_07, true, 5.11755, 7);
+position_unit!(pos_lon_a_08, true, 5.11755, 8);
+position_unit!(pos_lon_a_09, true, 5.11755, 9);
+position_unit!(pos_lon_a_10, true, 5.11755, 10);
+position_unit!(pos_lon_a_11, true, 5.11755, 11);
+position_unit!(pos_lon_a_12, true, 5.11755, 12);
+position_unit!(pos_lon_a_13, true, 5.11755, 13);
+position_unit!(pos_lon_a_14, true, 5.11755, 14);
+position_unit!(pos_lon_a_15, true, 5.11755, 15);
+position_unit!(pos_lat_b_00, false, -33.94611, 0);
+position_unit!(pos_lat_b_01, false, -33.94611, 1);
+position_unit!(pos_lat_b_02, false, -33.94611, 2);
+position_unit!(pos_lat_b_03, false, -33.94611, 3);
+position_unit!(pos_lat_b_04, false, -33.94611, 4);
+position_unit!(pos_lat_b_05, false, -33.94611, 5);
+position_unit!(pos_lat_b_06, false, -33.94611, 6);
+position_unit!(pos_lat_b_07, false, -33.94611, 7);
+position_unit!(pos_lon_b_00, true, -179.99, 0);
+position_unit!(pos_lon_b_01, true, -179.99, 1);
+position_unit!(pos_lon_b_02, true, -179.99, 2);
+position_unit!(pos_lon_b_03, true, -179.99, 3);
+position_unit!(pos_lon_b_04, true, -179.99, 4);
+position_unit!(pos_lon_b_05, true, -179.99, 5);
+position_unit!(pos_lon_b_06, true, -179.99, 6);
+position_unit!(pos_lon_b_07, true, -179.99, 7);
+position_unit!(pos_lon_b_08, true, -179.99, 8);
+position_unit!(pos_lon_b_09, true, -179.99, 9);
+position_unit!(pos_lon_b_10, true, -179.99, 10);
+position_unit!(pos_lon_b_11, true, -179.99, 11);
+position_unit!(pos_lon_b_12, true, -179.99, 12);
+position_unit!(pos_lon_b_13, true, -179.99, 13);
+position_unit!(pos_lon_b_14, true, -179.99, 14);
+position_unit!(pos_lon_b_15, true, -179.99, 15);
+position_unit!(pos_lat_c_00, false, 89.99, 0);
+position_unit!(pos_lat_c_01, false, 89.99, 1);
+position_unit!(pos_lat_c_02, false, 89.99, 2);
+position_unit!(pos_lat_c_03, false, 89.99, 3);
+position_unit!(pos_lat_c_04, false, 89.99, 4);
+position_unit!(pos_lat_c_05, false, 89.99, 5);
+position_unit!(pos_lat_c_06, false, 89.99, 6);
+position_unit!(pos_lat_c_07, false, 89.99, 7);
+position_unit!(pos_lon_c_00, true, 179.99, 0);
+position_unit!(pos_lon_c_01, true, 179.99, 1);
+position_unit!(pos_lon_c_02, true, 179.99, 2);
+position_unit!(pos_lon_c_03, true, 179.99, 3);
+position_unit!(pos_lon_c_04, true, 179.99, 4);
+position_unit!(pos_lon_c_05, true, 179.99, 5);
+position_unit!(pos_lon_c_06, true, 179.99, 6);
+position_unit!(pos_lon_c_07, true, 179.99, 7);
+position_unit!(pos_lon_c_08, true, 179.99, 8);
+position_unit!(pos_lon_c_09, true, 179.99, 9);
+position_unit!(pos_lon_c_10, true, 179.99, 10);
+position_unit!(pos_lon_c_11, true, 179.99, 11);
+position_unit!(pos_lon_c_12, true, 179.99, 12);
+position_unit!(pos_lon_c_13, true, 179.99, 13);
+position_unit!(pos_lon_c_14, true, 179.99, 14);
+position_unit!(pos_lon_c_15, true, 179.99, 15);
 
 macro_rules! cipher_word {
     ($name:ident, $i:expr) => {
@@ -289,4 +386,5 @@ cipher_word!(cipher_word3, 3);
 cipher_word!(cipher_word4, 4);
 
 registry!(total_len26, total_len00, total_len03, total_len04, total_len19, total_len25, total_len27, total_len40,
-          fields_discrete, position_lat, position_lon, cipher_word0, cipher_word1, cipher_word2, cipher_word3, cipher_word4);
+          fields_discrete,
+          pos_lat_a_00, pos_lat_a_01, pos_lat_a_02, pos_lat_a_03, pos_lat_a_04, pos_lat_a_05, pos_lat_a_06, pos_lat_a_07, pos_lon_a_00, pos_lon_a_01, pos_lon_a_02, pos_lon_a_03, pos_lon_a_04, pos_lon_a_05, pos_lon_a_06, pos_lon_a_07, pos_lon_a_08, pos_lon_a_09, pos_lon_a_10, pos_lon_a_11, pos_lon_a_12, pos_lon_a_13, pos_lon_a_14, pos_lon_a_15, pos_lat_b_00, pos_lat_b_01, pos_lat_b_02, pos_lat_b_03, pos_lat_b_04, pos_lat_b_05, pos_lat_b_06, pos_lat_b_07, pos_lon_b_00, pos_lon_b_01, pos_lon_b_02, pos_lon_b_03, pos_lon_b_04, pos_lon_b_05, pos_lon_b_06, pos_lon_b_07, pos_lon_b_08, pos_lon_b_09, pos_lon_b_10, pos_lon_b_11, pos_lon_b_12, pos_lon_b_13, pos_lon_b_14, pos_lon_b_15, pos_lat_c_00, pos_lat_c_01, pos_lat_c_02, pos_lat_c_03, pos_lat_c_04, pos_lat_c_05, pos_lat_c_06, pos_lat_c_07, pos_lon_c_00, pos_lon_c_01, pos_lon_c_02, pos_lon_c_03, pos_lon_c_04, pos_lon_c_05, pos_lon_c_06, pos_lon_c_07, pos_lon_c_08, pos_lon_c_09, pos_lon_c_10, pos_lon_c_11, pos_lon_c_12, pos_lon_c_13, pos_lon_c_14, pos_lon_c_15, cipher_word0, cipher_word1, cipher_word2, cipher_word3, cipher_word4);
